@@ -132,7 +132,7 @@ func GenOptions(t *rapid.T, b Bias, nShards int) Options {
 		o.MaxHead = 1000
 	}
 	// the process limit may be below the head limit, or practically unlimited (shards limited by head series only)
-	o.MaxProc = rapid.SampledFrom([]int64{1000, 2500, 1000, 2500, 600, 1000000000000000000}).Draw(t, "maxProc")
+	o.MaxProc = rapid.SampledFrom([]int64{1000, 2500, 1000, 2500, 600, 1000000000000000000, 9000000000000000000}).Draw(t, "maxProc")
 	switch rapid.IntRange(0, 5).Draw(t, "minKind") {
 	case 0, 1:
 		o.Min = 0
